@@ -431,7 +431,8 @@ PROPS["C09"]["lean_modules"].append("GoSup.Props.C09L")
 PROPS["C09"]["theorems"] += ["GoSup.Props.C09L.c09_none_survive", "GoSup.Props.C09L.c09_one_live_generation",
                              "GoSup.Props.C09L.c09_no_nil_context", "GoSup.Props.C09L.stuck_step",
                              "GoSup.Props.C09L.c09_f1_stuck_forever", "GoSup.Props.C09L.c09_f1_reachable",
-                             "GoSup.Props.C09L.c09_running_is_configured", "GoSup.Props.C09L.c09_stop_never_stuck_nonblocking"]
+                             "GoSup.Props.C09L.c09_running_is_configured", "GoSup.Props.C09L.c09_stop_never_stuck_nonblocking",
+                             "GoSup.Props.C09L.c09_lib_steps_bounded", "GoSup.Props.C09L.c09_stop_returns_nonblocking"]
 PROPS["C10"]["lean_modules"].append("GoSup.Props.C09L")
 PROPS["C10"]["theorems"] += ["GoSup.Props.C09L.c10_failed_is_real", "GoSup.Props.C09L.c10_failure_taken"]
 PROPS["C10"]["level_text"] += (" Concurrent model CompLts, every interleaving: Run() returns ErrRunnableFailed naming a child only if "
@@ -444,7 +445,9 @@ PROPS["C09"]["level_text"] = (
     "the configured ones by the code's membership criterion and every other generation is cancelled; once Run() has returned the context of every generation of children ever booted is done, also of one booted "
     "afterwards by an overtaken reload; at most one generation is alive at any time; boot never gets a nil context; the recorded "
     "deadlock C09-F1 is a reachable configuration of the model that no action leaves (Run() and Reload() never return), while with "
-    "children whose Stop() never waits no reachable state with a waiting Stop() is stuck (c09_stop_never_stuck_nonblocking). "
+    "children whose Stop() never waits no reachable state with a waiting Stop() is stuck and the library's own steps reach the "
+    "return of Run() within a computed bound, without another answer of the configuration callback "
+    "(c09_stop_never_stuck_nonblocking, c09_stop_returns_nonblocking, c09_lib_steps_bounded). "
     "Operation-level model CompSeq: Running and not returned => running children = configured children, for histories of any "
     "length. That Stop()/Reload() return in the remaining interleavings is checked on traces.")
 PROPS["C09"]["assumptions"] = ["children are mock runnables honouring the Runnable contract in the stated style",
